@@ -280,6 +280,7 @@ class Out:
     def fail(self, key, what):
         if self.scn.get('rootkey'):
             key = self.scn['rootkey']
+            what = f"workbook sheets {[_all_sheets(b['spec']) for b in self.scn['books']]}: {what}"
         if key not in self.fails:
             self.fails[key] = what
 
